@@ -563,7 +563,12 @@ func (r *Runtime) stringproto_repeat(call FunctionCall) Value {
 	if numInt == 0 || s.Length() == 0 {
 		return stringEmpty
 	}
-	num := toIntStrict(numInt)
+	// the length of the result (Length() * count, which must not overflow either) is limited to what
+	// can sanely be allocated
+	if numInt > math.MaxInt32/int64(s.Length()) {
+		panic(r.newError(r.getRangeError(), "Invalid string length"))
+	}
+	num := int(numInt)
 	a, u := devirtualizeString(s)
 	if u == nil {
 		var sb strings.Builder
